@@ -494,9 +494,9 @@ def gen_category_module(rng, idx):
 
 
 def generate(ctx):
-    n = ctx.n(12, 150)
+    n = ctx.n(12, 400)
     cases = [gen_module(ctx.rng, i, (16, 4, 14, 3, 3, 2)) for i in range(n)]
-    cases += [gen_category_module(ctx.rng, n + i) for i in range(ctx.n(3, 30))]
+    cases += [gen_category_module(ctx.rng, n + i) for i in range(ctx.n(3, 40))]
     return cases
 
 
